@@ -274,7 +274,7 @@ def execute(ctx):
     if tier == "thorough" and not failed:
         fz = {}
         for f in spec.get("fuzz", []):
-            secs = f.get("seconds", 60)
+            secs = int(os.environ.get("VERIF_FUZZ_SECONDS") or f.get("seconds", 60))  # longer background campaigns: VERIF_FUZZ_SECONDS=600
             cache = os.path.join(work, "fuzzcache-" + f["target"])
             os.makedirs(cache, exist_ok=True)
             fmod, fbin = moddir, bins.get("fuzz")
@@ -284,6 +284,8 @@ def execute(ctx):
             before = set(os.listdir(corpus_dir)) if os.path.isdir(corpus_dir) else set()
             cmd = [fbin, "-test.run", "^$", "-test.fuzz", "^%s$" % f["target"],
                    "-test.fuzztime=%ds" % secs, "-test.fuzzcachedir=" + cache, "-test.timeout=%ds" % (secs + 600)]
+            if os.environ.get("VERIF_FUZZ_WORKERS"):
+                cmd.append("-test.parallel=" + os.environ["VERIF_FUZZ_WORKERS"])
             rc, out = ctx["run"](cmd, fmod, ctx["env"], secs + 900, os.path.join(work, "run.log"))
             after = set(os.listdir(corpus_dir)) if os.path.isdir(corpus_dir) else set()
             for nf in after - before:  # crashers are reported through the JSON replay file, not kept here
